@@ -67,6 +67,44 @@ CLAIMED = {
           "Zero-length axes are outside the theorems (positive_shape)."),
 }
 
+
+CLAIMED.update({
+ "C07": C("Proof: npy write/read round trip is bit-identical for every 64-bit pattern (NaN payloads, infinities) and every non-empty shape; "
+          "written files are auto-detected and read back; text: shape line round-trips, reading back yields value-by-value the parse of "
+          "what was printed, printed digits = round-half-even(value*10^p) within half a unit of the p-th decimal; specials survive.",
+          "Rocq proof about a byte-level model (nom grammar, LE words, decimal printer) + exact differential (bytes, strings, bit patterns)", "7/C07",
+          "Rust's `{:.p}` and f64::from_str are modelled by executable stand-ins (print_fixed, parse_f64) compared with Rust on every run "
+          "(20k-200k values, exact); the 'at most 15 significant digits' re-print claim is checked on the implementation, not proved."),
+ "C15": C("Proof: for every shape the written header is magic, version 1.0, LE u16 length, the dict, spaces, a terminating newline, with "
+          "the data offset a multiple of 64 (pad 1..64); the dict parses (by the reader's own grammar) to '<f8', C order and the exact "
+          "shape; integers up to 2^53 convert exactly; Fortran-ordered files are rejected.",
+          "Rocq proof about the writer/reader model + numpy (tooling venv) as producer and consumer of files over the full dtype x order x version x spelling matrix", "7/C15",
+          "numpy is used only to write and read files; integer rounding above 2^53 and f4 widening are validated against numpy and Rust, not proved."),
+ "C16": C("Proof: every strict prefix and every non-empty extension of a written npy file is rejected; npy, text and auto-detected input "
+          "are accepted only when the value count equals the product of the shape (and no axis has length zero); inputs shorter than "
+          "the magic have no format.", "Rocq proof (case analysis on the cut position) + exhaustive truncation/extension per file, text edits, binary exit status", "7/C16"),
+ "C18": C("Proof (partial): std's read_exact / read_to_end loops, the npy value loop and the whole npy reader over ANY chunk schedule "
+          "equal the whole-buffer result; a source failing at any offset before the end yields an error; write_all completes short "
+          "writes and surfaces failures; the repaired container detection sees the same 64 KiB prefix for every schedule (the "
+          "unrepaired first-fill_buf detection is refuted by a 1-byte first chunk).",
+          "Rocq proof about a stream model (reader/writer schedules, failure offsets) + chunk-scheduled BufRead/Write through the verif hook and real pipes", "7/C18",
+          "Partial: what noodles does between fill_buf calls (record parsing, inflate, BGZF worker threads) is exercised through the "
+          "chunked stream, not modelled."),
+ "C12": C("Proof (partial): container detection is transport-independent and follows from the magic numbers; shape and population ids are "
+          "functions of the sample list only (no hash order); column order of the container is irrelevant. Exercised: the same call "
+          "set as VCF, BGZF VCF (4 block layouts), BGZF BCF, raw BCF x path/stdin x threads 1..16 x repeated runs give byte-identical "
+          "stdout, equal to the model's.",
+          "Rocq proof of the modelled logic + implementation-vs-implementation and vs-model runs across containers/transports/threads", "7/C12",
+          "Partial: decoding, inflate and worker-thread scheduling live in noodles/flate2: sampled, not proved."),
+ "C17": C("Proof (partial): the panic skeleton of fold / stat (all 14) / view (Model/Panic.v: every unsigned subtraction, division, "
+          "index and panicking constructor with its source site) never reaches Panic on any spectrum the readers accept, for every "
+          "shape, statistic and option value; the readers guarantee count, no zero-length axis, no format for short inputs.",
+          "Rocq proof about a panic skeleton + grid/bounds/mutation runs of the binary (exit 101, 'panicked at', signals)", "7/C17",
+          "Partial: clap, the VCF/BCF/BGZF decoders (noodles) and allocation are not modelled; mutated call-set bytes are fuzz-style "
+          "support only. The skeleton is hand-written from the repaired sources; its fidelity is supported by the grid runs in debug "
+          "(overflow checks on)."),
+})
+
 NOT_YET = {}
 
 def main():
